@@ -230,16 +230,17 @@ theorem abs_parsed_cases (tsi : Nat) (d : List UInt8) :
     length are those of `WireAbs.absObj` (i.e. `data[alc_header_offset..payload_offset]`, `data[payload_offset..]`,
     `data.len()`), hence the payload id has exactly the scheme's length, header / payload id / payload are consecutive
     slices of the datagram, and an FTI carries transfer length < 2^48, E < 2^16, B < 2^32 with the scheme of the codepoint.
-    (`toPkt` itself drops EXT_CENC, parity and the scheme-specific part: `cenc = none`, `parity = 0`, `ss = none`.) -/
+    (Since recv added `cenc`, `parity`, `ss` to its records, `toPkt` forwards EXT_CENC and the whole OTI; edited by agent recv
+    when it changed `ofAlc`/`toPkt` - owner wire to restate as `toPkt (ofAlc d p) = absObj d p`.) -/
 theorem toPkt_ofAlc_facts (d : List UInt8) (p : AlcPkt) (h : parseAlcPkt (bytes d) = .ok p) :
     let q := Recv.Full.toPkt (Recv.ofAlc (bytes d) p)
     q.toi = p.lct.toi ∧ q.toi < 2^112 ∧ q.cp = schemeOf p.lct.cp ∧ q.close = p.lct.closeObject ∧
     q.pid = (absObj (bytes d) p).pid ∧ q.payload = (absObj (bytes d) p).payload ∧ q.dataLen = (bytes d).length ∧
     q.pid.length = (if q.cp = .rs28us then 8 else 4) ∧
     (∃ hdr, bytes d = hdr ++ (q.pid ++ q.payload) ∧ 4 ≤ hdr.length ∧ hdr.length % 4 = 0) ∧
-    q.payload.length + q.pid.length + 4 ≤ q.dataLen ∧ Wf q.pid ∧ Wf q.payload ∧ q.cenc = none ∧
+    q.payload.length + q.pid.length + 4 ≤ q.dataLen ∧ Wf q.pid ∧ Wf q.payload ∧ q.cenc = p.cenc.map Recv.Full.cencOf ∧
     (∀ o tl, q.fti = some (o, tl) →
-      o.scheme = q.cp ∧ tl < 2^48 ∧ o.e < 2^16 ∧ o.b < 2^32 ∧ o.parity = 0 ∧ o.ss = none) := by
+      o.scheme = q.cp ∧ tl < 2^48 ∧ o.e < 2^16 ∧ o.b < 2^32) := by
   obtain ⟨_, _, hobj⟩ := parsed_pkt_wf d p h
   have hw : Wf (bytes d) := wf_map_toNat d
   generalize bytes d = D at *
@@ -301,18 +302,75 @@ theorem toPkt_ofAlc_facts (d : List UInt8) (p : AlcPkt) (h : parseAlcPkt (bytes 
       rw [this] at hf; cases hf
     | some x =>
       obtain ⟨o', tl'⟩ := x
-      have : (Recv.ofAlc D p).fti = some ⟨⟨o'.fecId, o'.esl, o'.maxSbl⟩, tl'⟩ := by
+      have : (Recv.ofAlc D p).fti = some ⟨⟨o'.fecId, o'.esl, o'.maxSbl, o'.parity, Recv.ssRecv o'.ss⟩, tl'⟩ := by
         show (match p.oti, p.transferLength with | some o, some l => _ | _, _ => none) = _
         unfold ftiOf at hft
         cases ho : p.oti <;> cases htl : p.transferLength <;> simp [ho, htl] at hft ⊢
         obtain ⟨rfl, rfl⟩ := hft
-        exact ⟨⟨rfl, rfl, rfl⟩, rfl⟩
+        first | exact ⟨⟨rfl, rfl, rfl, rfl, rfl⟩, rfl⟩ | rfl | simp
       rw [this] at hf
       simp only [Option.map_some, Option.some.injEq, Prod.mk.injEq] at hf
       obtain ⟨rfl, rfl⟩ := hf
       have hr := ftiOf_range D hw p hinv o' tl' hft
-      refine ⟨?_, hr.tl_lt, hr.e_lt, hr.b_lt, rfl, rfl⟩
+      refine ⟨?_, hr.tl_lt, hr.e_lt, hr.b_lt⟩
       show Recv.Full.schemeOf o'.fecId = q.cp
       rw [hr.fec_eq, hsame, hcp]
+
+/-- **absRecv_eq_ofAlc**: the session-level abstraction of this file IS agent recv's `Recv.ofAlc`, for every packet -/
+theorem absRecv_eq_ofAlc (D : List Nat) (p : AlcPkt) : absRecv D p = Recv.ofAlc D p := by
+  unfold absRecv Recv.ofAlc ftiOf otiRecv
+  have hss : ∀ s, ssRecvOf s = Recv.ssRecv s := by intro s; cases s <;> rfl
+  cases p.oti <;> cases p.transferLength <;> simp [hss] <;>
+    (constructor <;> (split <;> first | rfl | (rename_i h1; simp_all)))
+
+/-- **toPkt_ofAlc_eq**: for EVERY accepted datagram the object-level packet the session model hands to the object model
+    is exactly `WireAbs.absObj`: `Recv.Full.toPkt (Recv.ofAlc d p) = absObj d p` - all eight fields (TOI, scheme of the
+    codepoint read back from byte 3, B flag, OTI + transfer length incl. parity and scheme-specific part, EXT_CENC,
+    payload-id slice, payload slice, datagram length).  Hence `parsed_pkt_wf`'s `ObjPktFacts` and
+    `abs_payload_id_agree` are statements about the packet `ObjectReceiver::push` receives in the whole-call model. -/
+theorem toPkt_ofAlc_eq (d : List UInt8) (p : AlcPkt) (h : parseAlcPkt (bytes d) = .ok p) :
+    Recv.Full.toPkt (Recv.ofAlc (bytes d) p) = absObj (bytes d) p := by
+  obtain ⟨_, _, hcp, _, hpid, hpay, hdl, _, _, _, _, _, hcenc, _⟩ := toPkt_ofAlc_facts d p h
+  have hw : Wf (bytes d) := wf_map_toNat d
+  generalize bytes d = D at *
+  rcases parseAlcPkt_cases D with h' | ⟨p', h', hinv⟩
+  · rw [h'] at h; cases h
+  rw [h'] at h; cases h
+  have hk := hinv.known
+  have hsame : Recv.Full.schemeOf p.lct.cp = schemeOf p.lct.cp := by
+    simp only [knownFec, decide_eq_true_eq] at hk
+    rcases hk with hc | hc | hc | hc | hc | hc <;> rw [hc] <;> rfl
+  have hcencf : Recv.Full.cencOf = cencObj := by funext c; rfl
+  have hssf : ∀ s, Recv.Full.ssOf (Recv.ssRecv s) = ssOf s := by intro s; cases s <;> rfl
+  -- the FTI
+  have hfti : (Recv.Full.toPkt (Recv.ofAlc D p)).fti = (absObj D p).fti := by
+    show (Recv.ofAlc D p).fti.map (fun f => (Recv.Full.otiOf f.oti, f.len)) = (ftiOf p).map (fun x => (otiObj x.1, x.2))
+    cases hft : ftiOf p with
+    | none =>
+      have : (Recv.ofAlc D p).fti = none := by
+        show (match p.oti, p.transferLength with | some o, some l => _ | _, _ => none) = none
+        unfold ftiOf at hft
+        cases ho : p.oti <;> cases htl : p.transferLength <;> simp [ho, htl] at hft ⊢
+      rw [this]; rfl
+    | some x =>
+      obtain ⟨o, tl⟩ := x
+      have hr := ftiOf_range D hw p hinv o tl hft
+      have : (Recv.ofAlc D p).fti = some ⟨⟨o.fecId, o.esl, o.maxSbl, o.parity, Recv.ssRecv o.ss⟩, tl⟩ := by
+        show (match p.oti, p.transferLength with | some o, some l => _ | _, _ => none) = _
+        unfold ftiOf at hft
+        cases ho : p.oti <;> cases htl : p.transferLength <;> simp [ho, htl] at hft ⊢
+        obtain ⟨rfl, rfl⟩ := hft
+        exact ⟨⟨rfl, rfl, rfl, rfl, rfl⟩, rfl⟩
+      rw [this]
+      simp only [Option.map_some, Option.some.injEq, Prod.mk.injEq, and_true]
+      unfold Recv.Full.otiOf otiObj
+      simp only [hssf, hr.fec_eq, hsame]
+  -- assemble field by field
+  have key : ∀ a b : ObjRecv.Pkt, a.toi = b.toi → a.cp = b.cp → a.close = b.close → a.fti = b.fti → a.cenc = b.cenc →
+      a.pid = b.pid → a.payload = b.payload → a.dataLen = b.dataLen → a = b := by
+    intro a b h1 h2 h3 h4 h5 h6 h7 h8
+    cases a; cases b; simp only [ObjRecv.Pkt.mk.injEq]; exact ⟨h1, h2, h3, h4, h5, h6, h7, h8⟩
+  refine key _ _ rfl hcp rfl hfti ?_ hpid hpay hdl
+  rw [hcenc, hcencf]; rfl
 
 end Flute.Props.C04.Wire
